@@ -70,6 +70,7 @@ let error_s = function
   | EWrongPacket -> "WrongPacket"
   | ECollisionTimeout -> "CollisionTimeout"
   | EEmptySubscription -> "EmptySubscription"
+  | EConnectionAborted -> "ConnectionAborted"
 
 let parse_pub = function
   | [ q; id; t; p ] -> { p_qos = qos_of q; p_pkid = n id; p_topic = n t; p_payload = n p }
@@ -264,7 +265,7 @@ let tail5_s s =
   (t, s')
 
 let run5 s o =
-  match v5_step s o with
+  match (if unfixed then v5_step_orig else v5_step) s o with
   | Ok (s', Wrote5 p) ->
       let t, s'' = tail5_s s' in
       print_endline ("OK " ^ (match p with Some p -> packet5_s p | None -> "-") ^ " " ^ t);
